@@ -6,6 +6,7 @@ import (
 	"path/filepath"
 	"sync"
 	"sync/atomic"
+	"time"
 
 	badgerdb "github.com/dgraph-io/badger/v4"
 	clover "github.com/ostafen/clover/v2"
@@ -123,7 +124,18 @@ func MustOpen(backend string) *Inst {
 // Close closes the database and removes its directory.
 func (i *Inst) Close() {
 	if i.DB != nil {
-		i.DB.Close()
+		if otx, _, _ := i.V.Leaks(); otx > 0 || i.V.Poisoned {
+			i.Abandon() // closing a store with a leaked transaction blocks forever
+			return
+		}
+		db := i.DB
+		done := make(chan struct{})
+		go func() { db.Close(); close(done) }()
+		select {
+		case <-done:
+		case <-time.After(30 * time.Second):
+			// wedged below the store interface; the hang itself is reported by the checks, here we only move on
+		}
 		i.DB = nil
 	}
 	if i.Dir != "" {
@@ -179,7 +191,7 @@ func (i *Inst) Fresh(kvs []vstore.KV) (*Inst, error) {
 		}
 	}
 	i.V.Hook, i.V.PostHook, i.V.FailAt = nil, nil, nil
-	if otx, _, _ := i.V.Leaks(); otx > 0 {
+	if otx, _, _ := i.V.Leaks(); otx > 0 || i.V.Poisoned {
 		// a leaked transaction would block Restore/Close forever (bbolt writer lock): abandon the instance
 		i.Abandon()
 		n, err := Open(i.Backend)
